@@ -493,6 +493,33 @@ fn ecdsa_repad(n: &mut Net, out: &mut RunOut, sig: &[u8]) -> Vec<u8> {
     [fit(&r, half), fit(&s, half)].concat()
 }
 
+/// The adversary who picks its *key* after seeing (r, hash): Q = -(h/r)*G makes h*G + r*Q the point at infinity,
+/// so every intermediate of the ECDSA verification equation degenerates (the classic "exceptional case"
+/// input). Returned as a compressed SEC1 key; `None` if r is 0 or not a scalar.
+macro_rules! ecdsa_degenerate_key {
+    ($m:ident, $hv:expr, $r_be:expr) => {{
+        use crrl::$m::{Point, Scalar};
+        let mut tmp = [0u8; 32];
+        let hv: &[u8] = $hv;
+        if hv.len() >= 32 {
+            tmp.copy_from_slice(&hv[..32]);
+        } else {
+            tmp[32 - hv.len()..].copy_from_slice(hv);
+        }
+        tmp.reverse();
+        let h = Scalar::decode_reduce(&tmp);
+        let mut rb: Vec<u8> = $r_be.to_vec();
+        rb.reverse();
+        match Scalar::decode(&rb) {
+            Some(r) if r.iszero() == 0 => {
+                let q = Point::mulgen(&(-(h / r)));
+                if q.isneutral() != 0 { None } else { Some(q.encode_compressed().to_vec()) }
+            }
+            _ => None,
+        }
+    }};
+}
+
 fn ex_p256(n: &mut Net, out: &mut RunOut, tier: Tier) {
     use crrl::p256::{PrivateKey, PublicKey};
     let seed = { let l = 16 + n.t.usize(40); n.rng.bytes(l) };
@@ -534,6 +561,37 @@ fn ex_p256(n: &mut Net, out: &mut RunOut, tier: Tier) {
         out.ev(format_args!(" verify_trunc rm={} -> {:?}", rm, r.map(|x| x.map(|s| hex(&s)))));
         yesno(out, "p256trunc", matches!(r, Some(Some(_))));
         out.probe("probe.exchange.truncated_verification");
+    }
+    if n.t.chance(1, 6) && sig.len() == 64 {
+        // key chosen by the adversary for this (r, hash): degenerate verification equation, plain and truncated
+        if let Some(qk) = ecdsa_degenerate_key!(p256, &hv2, &sig[..32]) {
+            out.probe("probe.exchange.ecdsa_key_crafted_for_degenerate_equation");
+            if let Some(Some(pkx)) = g!(out, "call.p256.PublicKey_decode", hex(&qk), PublicKey::decode(&qk)) {
+                let mut s2 = sig.clone();
+                match n.t.usize(3) {
+                    0 => {}
+                    1 => s2[32..].iter_mut().for_each(|b| *b = 0),
+                    _ => { s2[32..].iter_mut().for_each(|b| *b = 0); s2[63] = 1; }
+                }
+                let v = g!(out, "call.p256.verify_hash", format!("{} {}", hex(&s2), hex(&hv2)), pkx.verify_hash(&s2, &hv2));
+                out.ev(format_args!(" crafted key {} verify -> {:?}", hex(&qk), v));
+                if let Some(Some(p)) = g!(out, "call.p256.prepare_truncate", hex(&sig), PrivateKey::prepare_truncate(&sig)) {
+                    let rm = rm_bits(n.t, tier);
+                    let mut ts = p.to_vec();
+                    // retained part of s: zero, one, or as signed; the truncated bits are garbage
+                    match n.t.usize(3) {
+                        0 => ts[32..].iter_mut().for_each(|b| *b = 0),
+                        1 => { ts[32..].iter_mut().for_each(|b| *b = 0); ts[32] = 1; }
+                        _ => {}
+                    }
+                    for i in 0..rm / 8 {
+                        ts[63 - i] = 0x5A;
+                    }
+                    let r = g!(out, "call.p256.verify_trunc_hash", format!("rm={} {} {}", rm, hex(&ts), hex(&hv2)), pkx.verify_trunc_hash(&ts, rm, &hv2));
+                    out.ev(format_args!(" crafted key verify_trunc rm={} -> {:?}", rm, r.map(|x| x.map(|s| hex(&s)))));
+                }
+            }
+        }
     }
     if n.t.chance(1, 4) {
         // the documented flow: the signer prepares (r, s) for truncation, the last rm bits are dropped (here:
@@ -601,6 +659,21 @@ fn ex_secp256k1(n: &mut Net, out: &mut RunOut) {
     let v = g!(out, "call.secp256k1.verify_hash", format!("{} {}", hex(&sig2), hex(&hv2)), pkd.verify_hash(&sig2, &hv2));
     out.ev(format_args!(" verify -> {:?}", v));
     yesno(out, "secp256k1", v == Some(true));
+    if n.t.chance(1, 6) && sig.len() == 64 {
+        if let Some(qk) = ecdsa_degenerate_key!(secp256k1, &hv2, &sig[..32]) {
+            out.probe("probe.exchange.ecdsa_key_crafted_for_degenerate_equation");
+            if let Some(Some(pkx)) = g!(out, "call.secp256k1.PublicKey_decode", hex(&qk), PublicKey::decode(&qk)) {
+                let mut s2 = sig.clone();
+                match n.t.usize(3) {
+                    0 => {}
+                    1 => s2[32..].iter_mut().for_each(|b| *b = 0),
+                    _ => { s2[32..].iter_mut().for_each(|b| *b = 0); s2[63] = 1; }
+                }
+                let v = g!(out, "call.secp256k1.verify_hash", format!("{} {}", hex(&s2), hex(&hv2)), pkx.verify_hash(&s2, &hv2));
+                out.ev(format_args!(" crafted key {} verify -> {:?}", hex(&qk), v));
+            }
+        }
+    }
 }
 
 macro_rules! ex_schnorr {
@@ -688,8 +761,13 @@ fn ex_x25519(n: &mut Net, out: &mut RunOut) {
     let pb = x25519_base(&b);
     out.ev(format_args!("x25519 pa={} pb={}", hex(&pa), hex(&pb)));
     let bd = bounds_of!(crrl::ed25519::Scalar, crrl::field::GF25519);
+    // small-order and non-canonical u coordinates (the two order-8 values, 0, 1, p-1, p, p+1 and their top-bit twins)
+    let sp = coord_sign_specials(&bd.field_m1, 32, &[
+        crate::util::unhex("e0eb7a7c3b41b8ae1656e3faf19fc46ada098deb9c32b1fd866205165f49b800").unwrap(),
+        crate::util::unhex("5f9c95bca3508c24b1d0b1559c83ef5b04445cc4581c8e86d8224eddd09f1157").unwrap(),
+    ]);
     for (sk, peer) in [(a, pb), (b, pa)] {
-        let d = n.structured(out, &peer, &[(32, false)], &bd);
+        let d = if n.t.chance(1, 3) { n.pointish(out, &peer, &sp) } else { n.structured(out, &peer, &[(32, false)], &bd) };
         // the API takes fixed-size arrays: a wrong-length delivery cannot be passed at all
         if let Ok(arr) = <[u8; 32]>::try_from(&d[..]) {
             let r = g!(out, "call.x25519.x25519", hex(&arr), x25519(&arr, &sk));
@@ -709,8 +787,9 @@ fn ex_x448(n: &mut Net, out: &mut RunOut) {
     let pb = x448_base(&b);
     out.ev(format_args!("x448 pa={} pb={}", hex(&pa), hex(&pb)));
     let bd = bounds_of!(crrl::ed448::Scalar, crrl::field::GF448);
+    let sp = coord_sign_specials(&bd.field_m1, 56, &[]);
     for (sk, peer) in [(a, pb), (b, pa)] {
-        let d = n.structured(out, &peer, &[(56, false)], &bd);
+        let d = if n.t.chance(1, 3) { n.pointish(out, &peer, &sp) } else { n.structured(out, &peer, &[(56, false)], &bd) };
         if let Ok(arr) = <[u8; 56]>::try_from(&d[..]) {
             let r = g!(out, "call.x448.x448", hex(&arr), x448(&arr, &sk));
             out.ev(format_args!(" shared -> {:?}", r.map(|e| hex(&e))));
@@ -745,7 +824,9 @@ fn ex_groups(n: &mut Net, out: &mut RunOut) {
         }
         // one_way_map: documented to require exactly 64 bytes
         let m0 = n.rng.bytes(64);
-        let m = n.field(out, &m0);
+        // two 32-byte halves, each mapped separately: boundary values (0, 1, p-1, p, ...) reach the map's exceptional cases
+        let bdm = bounds_of!(crrl::ed25519::Scalar, crrl::field::GF25519);
+        let m = n.structured(out, &m0, &[(32, false), (32, false)], &bdm);
         if m.len() == 64 {
             let r = g!(out, "call.ristretto255.one_way_map", hex(&m), Point::one_way_map(&m).encode());
             out.ev(format_args!("ristretto255 one_way_map -> {:?}", r.map(|e| hex(&e))));
@@ -778,7 +859,8 @@ fn ex_groups(n: &mut Net, out: &mut RunOut) {
             out.status(ENG, "decaf448.Point.set_decode", st);
         }
         let m0 = n.rng.bytes(112);
-        let m = n.field(out, &m0);
+        let bdm = bounds_of!(crrl::ed448::Scalar, crrl::field::GF448);
+        let m = n.structured(out, &m0, &[(56, false), (56, false)], &bdm);
         if m.len() == 112 {
             let r = g!(out, "call.decaf448.one_way_map", hex(&m), Point::one_way_map(&m).encode());
             out.ev(format_args!("decaf448 one_way_map -> {:?}", r.map(|e| hex(&e))));
